@@ -218,6 +218,22 @@ def case_alpha(case, res):
                     corr = corr + jnp.sum(-0.5 * ((x - mu_b) / s) ** 2 + 0.5 * ((xp - mu_f) / s) ** 2)
                     new[k] = xp
                 return gs.MHProposal(new, corr)
+        elif mh_mode == "window":
+            # uniform window whose half-width depends on the state: x' ~ U(x - h(x), x + h(x)), h(x) = s*(0.2+|x|).
+            # A move is irreversible (q(x|x') = 0, declared correction -inf) when |x - x'| > h(x').
+            def prop(key, state, s):
+                pos = iface.extract_position(listing, state)
+                new, corr = {}, 0.0
+                ks_ = jax.random.split(key, len(listing))
+                for kk, k in zip(ks_, listing):
+                    x = pos[k]
+                    h = s * (0.2 + jnp.abs(x))
+                    xp = x + h * jax.random.uniform(kk, jnp.shape(x), minval=-1.0, maxval=1.0)
+                    hb = s * (0.2 + jnp.abs(xp))
+                    lq_b_ = jnp.where(jnp.abs(x - xp) <= hb, -jnp.log(2 * hb), -jnp.inf)
+                    corr = corr + jnp.sum(lq_b_ + jnp.log(2 * h))
+                    new[k] = xp
+                return gs.MHProposal(new, corr)
         else:
             # independence proposal N(m_k, 1.5^2) per coordinate
             def prop(key, state, s):
@@ -296,6 +312,24 @@ def case_alpha(case, res):
                 mb = xp + step * np.tanh(xp)
                 lq_f = np.sum(-0.5 * ((xp - mf) / step) ** 2)
                 lq_b = np.sum(-0.5 * ((th0 - mb) / step) ** 2)
+            elif mh_mode == "window":
+                hf = step * (0.2 + np.abs(th0))
+                hb = step * (0.2 + np.abs(xp))
+                lq_f = float(np.sum(-np.log(2 * hf)))
+                margin = np.abs(th0 - xp) - hb
+                if np.any(np.abs(margin) < 1e-5 * (1 + hb)):
+                    res.skip("window proposal on the edge of reversibility (float32)")
+                    continue
+                if np.any(margin > 0):
+                    # q(x|x') = 0: the move cannot be reversed, alpha = 0 and the chain stays
+                    res.mon("irreversible_proposal_rejected")
+                    if accepted or acc[i] != 0.0:
+                        res.violation("alpha-not-mh-ratio", f"mh(window): the proposal x'={np.round(xp, 4).tolist()} from "
+                                      f"x={np.round(th0, 4).tolist()} cannot be reversed (|x-x'| > h(x')), declared log-correction "
+                                      f"-inf, but reported acceptance probability {acc[i]:.6g}, moved={accepted}", w)
+                        break
+                    continue
+                lq_b = float(np.sum(-np.log(2 * hb)))
             else:
                 lq_f = np.sum(-0.5 * ((xp - 0.3) / 1.5) ** 2)
                 lq_b = np.sum(-0.5 * ((th0 - 0.3) / 1.5) ** 2)
@@ -455,7 +489,7 @@ def gen_cases(tier, seed):
                     rng = rng_for(seed, "c06-gen", i)
                     step = float(np.round(10 ** rng.uniform(-1.3, 0.6), 3))
                     cases.append({"kind": "alpha", "idx": i, "seed": seed, "kernel": kern, "target": tkind, "shapes": sh,
-                                  "step": step, "mh_mode": ["asym_drift", "independence"][i % 2], "liesel": bool(i % 5 == 0),
+                                  "step": step, "mh_mode": ["asym_drift", "independence", "window"][i % 3], "liesel": bool(i % 5 == 0),
                                   "n_states": 4 if q else 8, "n_keys": 48 if q else 128, "cost": 6 if "iwls" in kern else 3})
                     i += 1
     for j in range(6 if q else 60):
